@@ -53,7 +53,7 @@ for prop, name, patch in items:
     if rc != 0:
         print(f"=== {prop} {name}: does not apply to /repo"); continue
     try:
-        rc, out = sh(f"/verif/bin/pprofcheck -property all -no-evidence -repo {REPO}")
+        rc, out = sh(f"/verif/bin/pprofcheck -property {os.environ.get('ONLYPROP', 'all')} -no-evidence -repo {REPO}")
     finally:
         sh(f"git -C {REPO} checkout -- .")
     lines = [l.strip()[:420] for l in out.splitlines() if re.match(r"\s*(VIOLATION C|UNDECIDED)", l)]
